@@ -610,6 +610,211 @@ def m_sort_by_key(I, st, fn, ce, args, line, depth, dest_ty, may_unwind):
     return outs
 
 
+ORDERING = "std::cmp::Ordering"
+
+
+def _ordering(c):
+    return Agg("adt", ORDERING, 0 if c < 0 else (1 if c == 0 else 2), [])
+
+
+def _scalar_or_addr(I, st, v):
+    """a concrete integer or a model address behind a value or a reference to one (or None)"""
+    for _ in range(3):
+        if v[0] == "const" and isinstance(v[1], int) and not isinstance(v[1], bool):
+            return v[1]
+        a = addr_of(I, v)
+        if a is not None:
+            return a
+        if v[0] == "ref":
+            try:
+                v = I.load(st, v[1])
+            except Exception:
+                return None
+        else:
+            return None
+    return None
+
+
+def m_ord_cmp(I, st, fn, ce, args, line, depth, dest_ty, may_unwind):
+    """`Ord::cmp(&a, &b)` on integers / model addresses (raw pointers, `ptr as usize`)"""
+    if len(args) != 2 or args[0][0] != "ref" or args[1][0] != "ref":
+        return None
+    try:
+        a, b = I.load(st, args[0][1]), I.load(st, args[1][1])
+    except Exception:
+        return None
+    x, y = _scalar_or_addr(I, st, a), _scalar_or_addr(I, st, b)
+    if x is None or y is None:
+        return None
+    return [("ret", _ordering((x > y) - (x < y)), st)]
+
+
+def m_sort_by(I, st, fn, ce, args, line, depth, dest_ty, may_unwind):
+    """`sort_by(cmp)` / `sort_unstable_by(cmp)`: a stable insertion sort driven by the comparator, which is interpreted on
+    references to the elements and must answer with a literal `Ordering` every time (otherwise the order is unknown)"""
+    loc, v = _vec_at(I, st, args[0])
+    if v is None:
+        v = as_view(I, st, args[0])
+        loc = None
+    if v is None:
+        return None
+    lid, lo, hi = v[2], v[4][0][1], v[4][1][1]
+    order = list(range(lo, hi))
+    s = st
+
+    def cmp(s, i, j):
+        outs = I.call_value(s, args[1], [Ref(elem_loc(lid, i)), Ref(elem_loc(lid, j))], fn, line, depth, None, may_unwind)
+        rets = [(val, s2) for kind, val, s2 in outs if kind == "ret"]
+        if len(outs) != 1 or len(rets) != 1:
+            return None, s
+        val, s2 = rets[0]
+        if val[0] == "agg" and val[2] == ORDERING and isinstance(val[3], int):
+            return val[3] - 1, s2
+        return None, s2
+    for a in range(1, len(order)):
+        b = a
+        while b > 0:
+            c, s = cmp(s, order[b - 1], order[b])
+            if c is None:
+                I.emit(s, {"k": "SORT_KEY_OPAQUE", "key": "comparator"}, fn, line)
+                return None
+            if c <= 0:
+                break
+            order[b - 1], order[b] = order[b], order[b - 1]
+            b -= 1
+    items = [I.load(s, elem_loc(lid, k)) for k in order]
+    nv = make_list(I, s, items)
+    I.emit(s, {"k": "SORTED", "keys": None, "def": ce["def"]}, fn, line)
+    if loc is not None:
+        I.store(s, loc, nv)
+    elif args[0][0] == "ref":
+        I.store(s, args[0][1], nv)
+    return [("ret", UNIT, s)]
+
+
+def m_to_vec(I, st, fn, ce, args, line, depth, dest_ty, may_unwind):
+    v = as_view(I, st, args[0])
+    if v is None or not getattr(I, "model_vecs", False):
+        return None
+    return [("ret", make_list(I, st, items_of(I, st, v)), st)]
+
+
+def m_dedup_by(I, st, fn, ce, args, line, depth, dest_ty, may_unwind):
+    """`Vec::dedup_by(same_bucket)`: `same_bucket(&mut x, &mut last_kept)` decides, with a literal answer, whether x goes"""
+    loc, v = _vec_at(I, st, args[0])
+    if v is None:
+        return None
+    lid, lo, hi = v[2], v[4][0][1], v[4][1][1]
+    kept = []
+    s = st
+    for k in range(lo, hi):
+        if not kept:
+            kept.append(k)
+            continue
+        outs = I.call_value(s, args[1], [Ref(elem_loc(lid, k)), Ref(elem_loc(lid, kept[-1]))], fn, line, depth, None, may_unwind)
+        if len(outs) != 1 or outs[0][0] != "ret":
+            return None
+        val, s = outs[0][1], outs[0][2]
+        if not (val[0] == "const" and isinstance(val[1], bool)):
+            return None
+        if not val[1]:
+            kept.append(k)
+    nv = make_list(I, s, [I.load(s, elem_loc(lid, k)) for k in kept])
+    I.store(s, loc, nv)
+    return [("ret", UNIT, s)]
+
+
+def m_vec_as_ptr(I, st, fn, ce, args, line, depth, dest_ty, may_unwind):
+    """`Vec::as_ptr` / `as_mut_ptr`: the pointer to element 0 is the modelled list itself"""
+    v = as_view(I, st, args[0])
+    if v is None or not getattr(I, "model_vecs", False):
+        return None
+    return [("ret", v, st)]
+
+
+def m_from_raw_parts(I, st, fn, ce, args, line, depth, dest_ty, may_unwind):
+    """`Vec::from_raw_parts(ptr, len, cap)` where ptr is the buffer of a modelled list and len is its whole length"""
+    v = as_view(I, st, args[0])
+    if v is None or not getattr(I, "model_vecs", False):
+        return None
+    n = args[1]
+    if n[0] != "const" or n[1] != v[4][1][1] - v[4][0][1] or v[4][0][1] != 0:
+        return None
+    return [("ret", v, st)]
+
+
+# `Try` types the short-circuiting consumers are used with: (path, continue variant, break variant)
+_TRY = {"std::ops::ControlFlow": (0, 1), "std::result::Result": (0, 1), "std::option::Option": (1, 0)}
+
+
+def m_try_for_each(I, st, fn, ce, args, line, depth, dest_ty, may_unwind):
+    """`try_for_each(f)`: f runs on each item in turn; the first break/Err/None is the result, otherwise the
+    continue/Ok/Some of unit"""
+    it = args[0]
+    if it[0] == "ref":
+        it = I.load(st, it[1])
+    if not is_iter(it) or not dest_ty or dest_ty.get("k") != "adt" or dest_ty.get("path") not in _TRY:
+        return None
+    path = dest_ty["path"]
+    cont, brk = _TRY[path]
+
+    def on_item(s, item):
+        r = []
+        for kind, val, s2 in I.call_value(s, args[1], [item], fn, line, depth, dest_ty, may_unwind):
+            if kind != "ret":
+                r.append((kind, val, s2))
+                continue
+            for k, payload, s3 in I.variants_of(s2, val):
+                r.append(("go", None, s3) if k == cont else ("stop", val, s3))
+        return r
+    out = []
+    for kind, val, s in _drain(I, st, it, fn, line, depth, on_item):
+        if kind == "done":
+            out.append(("ret", Agg("adt", path, cont, [UNIT]), s))
+        elif kind == "stop":
+            out.append(("ret", val, s))
+        else:
+            out.append((kind, val, s))
+    return out
+
+
+def m_sort_plain(I, st, fn, ce, args, line, depth, dest_ty, may_unwind):
+    """`sort()` / `sort_unstable()` of a modelled list of integers / model addresses"""
+    loc, v = _vec_at(I, st, args[0])
+    if v is None:
+        v = as_view(I, st, args[0])
+        loc = None
+    if v is None:
+        return None
+    items = items_of(I, st, v)
+    keys = [_scalar_or_addr(I, st, x) for x in items]
+    if any(k is None for k in keys):
+        I.emit(st, {"k": "SORT_KEY_OPAQUE", "key": "element"}, fn, line)
+        return None
+    order = sorted(range(len(items)), key=lambda i: keys[i])
+    nv = make_list(I, st, [items[i] for i in order])
+    I.emit(st, {"k": "SORTED", "keys": keys, "def": ce["def"]}, fn, line)
+    if loc is not None:
+        I.store(st, loc, nv)
+    elif args[0][0] == "ref":
+        I.store(st, args[0][1], nv)
+    return [("ret", UNIT, st)]
+
+
+def m_dedup(I, st, fn, ce, args, line, depth, dest_ty, may_unwind):
+    """`Vec::dedup()` on integers / model addresses"""
+    loc, v = _vec_at(I, st, args[0])
+    if v is None:
+        return None
+    items = items_of(I, st, v)
+    keys = [_scalar_or_addr(I, st, x) for x in items]
+    if any(k is None for k in keys):
+        return None
+    kept = [i for i in range(len(items)) if i == 0 or keys[i] != keys[i - 1]]
+    I.store(st, loc, make_list(I, st, [items[i] for i in kept]))
+    return [("ret", UNIT, st)]
+
+
 def m_windows(I, st, fn, ce, args, line, depth, dest_ty, may_unwind):
     v = as_view(I, st, args[0])
     if v is None or args[1][0] != "const":
@@ -804,6 +1009,7 @@ def m_array_map(I, st, fn, ce, args, line, depth, dest_ty, may_unwind):
     if v is None:
         return None
     states = [([], st)]
+    outs = []
     for x in items_of(I, st, v):
         nxt = []
         for acc, s in states:
@@ -811,9 +1017,34 @@ def m_array_map(I, st, fn, ce, args, line, depth, dest_ty, may_unwind):
                 if kind == "ret":
                     nxt.append((acc + [val], s2))
                 else:
-                    return None
+                    outs.append((kind, val, s2))
         states = nxt
-    return [("ret", make_list(I, s, acc), s) for acc, s in states]
+    return outs + [("ret", make_list(I, s, acc), s) for acc, s in states]
+
+
+def m_array_from_fn(I, st, fn, ce, args, line, depth, dest_ty, may_unwind):
+    """`core::array::from_fn(f)`: f(0), f(1), .. f(N-1) in ascending order"""
+    if not getattr(I, "model_vecs", False) or dest_ty is None or dest_ty.get("k") != "array":
+        return None
+    n = _arr_len(I, dest_ty)
+    if n is None or n > 8:
+        return None
+    states = [([], st)]
+    outs = []
+    for i in range(n):
+        nxt = []
+        for acc, s in states:
+            for kind, val, s2 in I.call_value(s, args[0], [Const(i)], fn, line, depth, None, may_unwind):
+                if kind == "ret":
+                    nxt.append((acc + [val], s2))
+                else:
+                    outs.append((kind, val, s2))     # the closure unwound: the elements built so far are dropped by std
+        states = nxt
+    return outs + [("ret", make_list(I, s, acc), s) for acc, s in states]
+
+
+def m_mu_new(I, st, fn, ce, args, line, depth, dest_ty, may_unwind):
+    return [("ret", ("agg", "adt", "std::mem::MaybeUninit", 0, (args[0],)), st)]
 
 
 def m_position(I, st, fn, ce, args, line, depth, dest_ty, may_unwind):
@@ -1006,6 +1237,21 @@ def install():
     for nm in ("sort_by_key", "sort_unstable_by_key", "sort_by_cached_key"):
         M["core::slice::<impl [T]>::" + nm] = m_sort_by_key
         M["std::slice::<impl [T]>::" + nm] = m_sort_by_key
+    for nm in ("sort_by", "sort_unstable_by"):
+        M["core::slice::<impl [T]>::" + nm] = m_sort_by
+        M["std::slice::<impl [T]>::" + nm] = m_sort_by
+    M["std::cmp::Ord::cmp"] = m_ord_cmp
+    for nm in ("sort", "sort_unstable"):
+        M["core::slice::<impl [T]>::" + nm] = m_sort_plain
+        M["std::slice::<impl [T]>::" + nm] = m_sort_plain
+    M["std::vec::Vec::<T, A>::dedup"] = m_dedup
+    M["std::iter::Iterator::try_for_each"] = m_try_for_each
+    M["core::slice::<impl [T]>::to_vec"] = m_to_vec
+    M["std::slice::<impl [T]>::to_vec"] = m_to_vec
+    M["std::vec::Vec::<T, A>::dedup_by"] = m_dedup_by
+    M["std::vec::Vec::<T, A>::as_mut_ptr"] = m_vec_as_ptr
+    M["std::vec::Vec::<T, A>::as_ptr"] = m_vec_as_ptr
+    M["std::vec::Vec::<T>::from_raw_parts"] = m_from_raw_parts
     M["<std::ops::Range<usize> as std::iter::Iterator>::next"] = m_range_next
     M["std::iter::range::<impl std::iter::Iterator for std::ops::Range<A>>::next"] = m_range_next
     M["std::mem::MaybeUninit::<T>::uninit"] = m_mu_uninit
@@ -1015,6 +1261,9 @@ def install():
     M["std::ptr::mut_ptr::<impl *mut T>::write"] = m_ptr_write
     M["std::ptr::write"] = m_ptr_write
     M["std::mem::MaybeUninit::<T>::assume_init"] = m_mu_assume_init
+    M["std::array::from_fn"] = m_array_from_fn
+    M["core::array::from_fn"] = m_array_from_fn
+    M["std::mem::MaybeUninit::<T>::new"] = m_mu_new
     M["std::array::<impl [T; N]>::map"] = m_array_map
     M["core::array::<impl [T; N]>::map"] = m_array_map
     M["std::iter::ExactSizeIterator::len"] = m_iter_len
@@ -1041,6 +1290,7 @@ def install():
         M["<%s as std::iter::Iterator>::all" % n] = m_all_any(True)
         M["<%s as std::iter::Iterator>::any" % n] = m_all_any(False)
         M["<%s as std::iter::Iterator>::find" % n] = m_find
+        M["<%s as std::iter::Iterator>::try_for_each" % n] = m_try_for_each
         M["<%s as std::iter::Iterator>::position" % n] = m_position
         M["<%s as std::iter::ExactSizeIterator>::len" % n] = m_iter_len
         M["<%s as std::iter::Iterator>::collect" % n] = m_collect
@@ -1056,6 +1306,7 @@ install()
 for _k in ("std::iter::Iterator::any", "std::iter::Iterator::all", "std::iter::Iterator::for_each", "std::iter::Iterator::find",
            "std::iter::Iterator::position", "std::iter::Iterator::count", "std::iter::Iterator::map", "std::iter::Iterator::filter",
            "std::iter::Iterator::take_while", "std::iter::Iterator::inspect", "std::iter::Iterator::enumerate",
-           "std::iter::Iterator::zip", "std::iter::Iterator::collect", "std::iter::Iterator::take", "std::iter::Iterator::skip"):
+           "std::iter::Iterator::zip", "std::iter::Iterator::collect", "std::iter::Iterator::take", "std::iter::Iterator::skip",
+           "std::iter::Iterator::try_for_each"):
     if _k in MODELS:
         MODELS[_k] = _with_ranges(MODELS[_k])
